@@ -133,7 +133,9 @@ Proof.
   intros Hm He. unfold check_attr_prefix. rewrite get_run, get_override.
   destruct (lastset a (all_assign ss)) as [v|]; [|left; reflexivity].
   destruct (req_val req a) as [w|] eqn:Hr.
-  - intros H. right. apply aval_eqb_eq. exact H.
+  - rewrite orb_true_iff. intros [H|H]; [right; apply aval_eqb_eq; exact H|].
+    destruct (stated_val ex a) as [u|] eqn:Hs; [|discriminate]. apply aval_eqb_eq in H. subst.
+    left. symmetry. apply Hm. exact Hs.
   - intros H. left. eapply unrequested_ok_sound; eauto.
 Qed.
 
@@ -165,15 +167,29 @@ Qed.
 Lemma matches_name0 ex st0 : matches ex st0 -> c_name st0 = e_name ex.
 Proof. intros Hm. pose proof (Hm AName _ eq_refl) as H. cbn in H. congruence. Qed.
 
+Lemma In_mem_attr a l : In a l -> mem_attr a l = true.
+Proof. intros H. unfold mem_attr. apply existsb_exists. exists a. split; [exact H|apply attr_eqb_refl]. Qed.
+
+Lemma check_type_given_sound req ex ss : check_type_given req ex ss = true -> type_given req ex ss.
+Proof.
+  unfold check_type_given, type_given. rewrite !orb_true_iff. intros [[H|H]|H] s Hs Ha.
+  - apply negb_true_iff in H. exfalso.
+    assert (mem_attr AType (restated_attrs ss) = true); [|congruence].
+    apply In_mem_attr. unfold restated_attrs. apply in_flat_map. eauto.
+  - left. destruct (req_val req AType); [discriminate|discriminate H].
+  - right. destruct (stated_val ex AType); [discriminate|discriminate H].
+Qed.
+
 Theorem check_C13_sound i o : check_C13 i o = true -> C13_holds i o.
 Proof.
-  destruct o as [tss e]. unfold check_C13, C13_holds. rewrite !andb_true_iff. intros [[[Ht Hn] Hadr] H].
+  destruct o as [tss e]. unfold check_C13, C13_holds. rewrite !andb_true_iff. intros [[[[Ht Hn] Htg] Hadr] H].
   split.
   { rewrite forallb_forall in Ht. intros [t s0] Hin. specialize (Ht _ Hin). cbn [fst] in *.
     unfold target_eqb in Ht. rewrite andb_true_iff in Ht. destruct Ht as [H1 H2].
     destruct t as [a b], (i_target i) as [a' b']. cbn [fst snd] in *.
     apply opt_eqbN_eq in H1. apply N.eqb_eq in H2. congruence. }
   split; [apply check_no_invention_sound; exact Hn|].
+  split; [apply check_type_given_sound; exact Htg|].
   destruct e as [e|]; rewrite andb_true_iff in H; destruct H as [Hu Ha]; rewrite forallb_forall in Ha.
   - split; [exact Hu|]. intros st0 Hm He. exists (run_total (map snd tss) st0). split.
     + rewrite run_spec, (matches_name0 _ _ Hm), Hadr. reflexivity.
@@ -183,7 +199,344 @@ Proof.
     apply col_ext. intros a. apply (check_attr_sound (i_req i) (i_ex i) _ st0 a Hm He). apply Ha, In_all_attrs.
 Qed.
 
-(* ================================================================== Part 2: the model *)
+(* ================================================================== decider completeness *)
+Lemma opt_eqbN_refl a : opt_eqb N.eqb a a = true.
+Proof. destruct a; cbn; [apply N.eqb_refl|reflexivity]. Qed.
+Lemma ty_eqb_refl t : ty_eqb t t = true.
+Proof. unfold ty_eqb. rewrite N.eqb_refl, eqb_reflx, opt_eqbN_refl. reflexivity. Qed.
+Lemma aval_eqb_refl v : aval_eqb v v = true.
+Proof. destruct v; cbn; auto using N.eqb_refl, ty_eqb_refl, eqb_reflx, opt_eqbN_refl. Qed.
+
+(* a canonical column that agrees with everything stated and has the fall-back value elsewhere *)
+Definition canon (ex:existing) : colstate :=
+  mkCol (e_name ex)
+        (match e_type ex with Some t => t | None => mkTy 0 false None end)
+        (match e_null ex with Some b => b | None => true end)
+        (match e_default ex with TSome v => Some v | _ => None end)
+        (e_comment ex)
+        (match e_autoinc ex with Some b => b | None => false end).
+
+Lemma canon_stated ex a u : stated_val ex a = Some u -> get a (canon ex) = u.
+Proof.
+  destruct ex as [en et enl ed ec ea]. destruct a; cbn.
+  - congruence.
+  - destruct et; cbn; congruence.
+  - destruct enl; cbn; congruence.
+  - destruct ed; cbn; congruence.
+  - destruct ec; cbn; congruence.
+  - destruct ea; cbn; congruence.
+Qed.
+Lemma canon_reading ex a u : stated_val ex a = None -> default_reading a = Some u -> get a (canon ex) = u.
+Proof.
+  destruct ex as [en et enl ed ec ea]. destruct a; cbn; try discriminate.
+  - destruct enl; cbn; congruence.
+  - destruct ed; cbn; congruence.
+  - destruct ec; cbn; congruence.
+  - destruct ea; cbn; congruence.
+Qed.
+
+(* a different value of the same attribute *)
+Definition other (v:aval) : aval :=
+  match v with
+  | VName n => VName (N.succ n)
+  | VType t => VType (mkTy (N.succ (ty_id t)) (ty_dt t) (ty_ck t))
+  | VNull b => VNull (negb b)
+  | VDefault None => VDefault (Some 0%N) | VDefault (Some _) => VDefault None
+  | VComment None => VComment (Some 0%N) | VComment (Some _) => VComment None
+  | VAutoinc b => VAutoinc (negb b)
+  end.
+Lemma other_attr v : attr_of (other v) = attr_of v.
+Proof. destruct v as [| | |[|]|[|]|]; reflexivity. Qed.
+Lemma other_neq v : other v <> v.
+Proof.
+  destruct v as [n|t|b|[d|]|[c|]|b]; cbn; intros E; try discriminate E.
+  - injection E as E. apply (N.neq_succ_diag_l n). exact E.
+  - injection E as E. destruct t as [k dt ck]. cbn in E. injection E as E. apply (N.neq_succ_diag_l k). exact E.
+  - injection E as E. destruct b; discriminate.
+  - injection E as E. destruct b; discriminate.
+Qed.
+Lemma get_attr a st : attr_of (get a st) = a.
+Proof. destruct a; reflexivity. Qed.
+
+Section Complete.
+Variables (req:request) (ex:existing) (ss:list stmt).
+Hypothesis Htg : type_given req ex ss.
+
+(* the canonical column, and the canonical column with one unstated attribute changed, are admissible *)
+Lemma canon_matches : matches ex (canon ex).
+Proof. intros a v Hs. apply canon_stated. exact Hs. Qed.
+
+Lemma enough_gen x :
+  stated_val ex (attr_of x) = None ->
+  (req_val req (attr_of x) <> None \/ mem_attr (attr_of x) (restated_attrs ss) = false) ->
+  matches ex (set (canon ex) x) /\ stated_enough ss req ex (set (canon ex) x).
+Proof.
+  intros Hs Hfree. split.
+  - intros b v Hb. rewrite get_set. destruct (attr_eqb (attr_of x) b) eqn:E.
+    + apply attr_eqb_eq in E. subst b. congruence.
+    + apply canon_stated. exact Hb.
+  - intros s b Hin Hb Hr. destruct (stated_val ex b) as [u|] eqn:Hsb; [left; rewrite Hsb; discriminate|]. right.
+    rewrite get_set. destruct (attr_eqb (attr_of x) b) eqn:E.
+    + apply attr_eqb_eq in E. subst b. exfalso. destruct Hfree as [Hf|Hf]; [congruence|].
+      assert (mem_attr (attr_of x) (restated_attrs ss) = true); [|congruence].
+      apply In_mem_attr. unfold restated_attrs. apply in_flat_map. eauto.
+    + destruct (default_reading b) as [u|] eqn:Hd.
+      * f_equal. symmetry. apply canon_reading; assumption.
+      * exfalso. destruct b; try discriminate Hd.
+        -- cbn in Hsb. discriminate Hsb.
+        -- destruct (Htg s Hin Hb) as [K|K]; congruence.
+Qed.
+
+Lemma canon_enough : stated_enough ss req ex (canon ex).
+Proof.
+  intros s b Hin Hb Hr. destruct (stated_val ex b) as [u|] eqn:Hsb; [left; rewrite Hsb; discriminate|]. right.
+  destruct (default_reading b) as [u|] eqn:Hd.
+  - f_equal. symmetry. apply canon_reading; assumption.
+  - exfalso. destruct b; try discriminate Hd.
+    + cbn in Hsb. discriminate Hsb.
+    + destruct (Htg s Hin Hb) as [K|K]; congruence.
+Qed.
+
+(* what the attribute must be, as a function of the starting state *)
+Hypothesis P : forall st0, matches ex st0 -> stated_enough ss req ex st0 ->
+  forall a, get a (run_total ss st0) = get a st0 \/ get a (run_total ss st0) = get a (override st0 req).
+
+Lemma unrequested_complete a v :
+  lastset a (all_assign ss) = Some v -> req_val req a = None -> unrequested_ok ex ss a v = true.
+Proof.
+  intros Hl Hr. unfold unrequested_ok.
+  assert (Hc : v = get a (canon ex)).
+  { pose proof (P _ canon_matches canon_enough a) as H. rewrite get_run, get_override, Hl, Hr in H. tauto. }
+  destruct (stated_val ex a) as [u|] eqn:Hs.
+  - rewrite Hc, (canon_stated _ _ _ Hs). apply aval_eqb_refl.
+  - destruct (mem_attr a (restated_attrs ss)) eqn:Hmem.
+    + cbn [andb]. destruct (default_reading a) as [u|] eqn:Hd.
+      * rewrite Hc, (canon_reading _ _ _ Hs Hd). apply aval_eqb_refl.
+      * exfalso. apply mem_attr_In in Hmem. unfold restated_attrs in Hmem. apply in_flat_map in Hmem.
+        destruct Hmem as [s [Hin Hb]]. destruct a; try discriminate Hd.
+        -- cbn in Hs. discriminate Hs.
+        -- destruct (Htg s Hin Hb) as [K|K]; congruence.
+    + exfalso. set (x := other v).
+      assert (Hax : attr_of x = a).
+      { unfold x. rewrite other_attr, Hc. apply get_attr. }
+      assert (Hs' : stated_val ex (attr_of x) = None) by (rewrite Hax; exact Hs).
+      destruct (enough_gen x Hs') as [M E]; [right; rewrite Hax; exact Hmem|].
+      pose proof (P _ M E a) as H. rewrite get_run, get_override, Hl, Hr, get_set in H.
+      rewrite Hax, attr_eqb_refl in H. apply (other_neq v). unfold x in H. destruct H; congruence.
+Qed.
+End Complete.
+
+Lemma check_no_invention_complete req ex ss : no_invention req ex ss -> check_no_invention req ex ss = true.
+Proof.
+  unfold check_no_invention, no_invention. intros H. apply forallb_forall. intros s Hs.
+  apply forallb_forall. intros v Hv.
+  destruct (req_val req (attr_of v)) eqn:Hr; [reflexivity|].
+  destruct (stated_val ex (attr_of v)) as [w|] eqn:Hst; [|reflexivity].
+  rewrite (H s v w Hs Hv Hr Hst). apply aval_eqb_refl.
+Qed.
+
+Lemma check_type_given_complete req ex ss : type_given req ex ss -> check_type_given req ex ss = true.
+Proof.
+  unfold check_type_given, type_given. intros H.
+  destruct (mem_attr AType (restated_attrs ss)) eqn:Hm; [|reflexivity]. cbn [negb orb].
+  apply mem_attr_In in Hm. unfold restated_attrs in Hm. apply in_flat_map in Hm. destruct Hm as [s [Hs Ha]].
+  destruct (H s Hs Ha) as [K|K].
+  - destruct (req_val req AType); [reflexivity|congruence].
+  - destruct (stated_val ex AType); [apply orb_true_r|congruence].
+Qed.
+
+Theorem check_C13_complete i o : C13_holds i o -> check_C13 i o = true.
+Proof.
+  destruct o as [tss e]. unfold check_C13, C13_holds. intros [Ht [Hn [Htg H]]].
+  set (ss := map snd tss) in *. set (req := i_req i) in *. set (ex := i_ex i) in *.
+  assert (T : forallb (fun ts => target_eqb (fst ts) (i_target i)) tss = true).
+  { apply forallb_forall. intros ts Hin. rewrite (Ht ts Hin). unfold target_eqb.
+    rewrite opt_eqbN_refl, N.eqb_refl. reflexivity. }
+  rewrite T, (check_no_invention_complete _ _ _ Hn), (check_type_given_complete _ _ _ Htg). cbn [andb].
+  destruct e as [e|]; destruct H as [Hu H].
+  - (* raised *)
+    assert (Hadr : addr_ok (e_name ex) ss = true).
+    { destruct (H _ (canon_matches ex) (canon_enough req ex ss Htg)) as [st' [Hr _]].
+      rewrite run_spec in Hr. cbn [canon c_name] in Hr. destruct (addr_ok (e_name ex) ss); [reflexivity|discriminate Hr]. }
+    assert (P : forall st0, matches ex st0 -> stated_enough ss req ex st0 ->
+              forall a, get a (run_total ss st0) = get a st0 \/ get a (run_total ss st0) = get a (override st0 req)).
+    { intros st0 Hm He a. destruct (H st0 Hm He) as [st' [Hr Ha]]. rewrite run_spec in Hr.
+      destruct (addr_ok (c_name st0) ss); [|discriminate Hr]. injection Hr as <-. apply Ha. }
+    rewrite Hadr, Hu. cbn [andb]. apply forallb_forall. intros a _. unfold check_attr_prefix.
+    destruct (lastset a (all_assign ss)) as [v|] eqn:Hl; [|reflexivity].
+    destruct (req_val req a) as [w|] eqn:Hr; [|apply (unrequested_complete req ex ss Htg P a v Hl Hr)].
+    destruct (aval_eqb v w) eqn:Evw; [reflexivity|]. cbn [orb].
+    assert (Hne : v <> w) by (intros ->; rewrite aval_eqb_refl in Evw; discriminate).
+    assert (Hc : v = get a (canon ex)).
+    { pose proof (P _ (canon_matches ex) (canon_enough req ex ss Htg) a) as K.
+      rewrite get_run, get_override, Hl, Hr in K. destruct K; congruence. }
+    destruct (stated_val ex a) as [u|] eqn:Hs.
+    + rewrite Hc, (canon_stated _ _ _ Hs). apply aval_eqb_refl.
+    + exfalso. set (x := other v).
+      assert (Hax : attr_of x = a) by (unfold x; rewrite other_attr, Hc; apply get_attr).
+      assert (Hs' : stated_val ex (attr_of x) = None) by (rewrite Hax; exact Hs).
+      destruct (enough_gen req ex ss Htg x Hs') as [M E]; [left; rewrite Hax, Hr; discriminate|].
+      pose proof (P _ M E a) as K. rewrite get_run, get_override, Hl, Hr, get_set in K.
+      rewrite Hax, attr_eqb_refl in K. destruct K as [K|K]; [|congruence]. apply (other_neq v). unfold x in K. congruence.
+  - (* completed *)
+    assert (Hadr : addr_ok (e_name ex) ss = true).
+    { pose proof (H _ (canon_matches ex) (canon_enough req ex ss Htg)) as Hr.
+      rewrite run_spec in Hr. cbn [canon c_name] in Hr. destruct (addr_ok (e_name ex) ss); [reflexivity|discriminate Hr]. }
+    assert (Q : forall st0, matches ex st0 -> stated_enough ss req ex st0 ->
+              forall a, get a (run_total ss st0) = get a (override st0 req)).
+    { intros st0 Hm He a. pose proof (H st0 Hm He) as Hr. rewrite run_spec in Hr.
+      destruct (addr_ok (c_name st0) ss); [|discriminate Hr]. injection Hr as ->. reflexivity. }
+    assert (P : forall st0, matches ex st0 -> stated_enough ss req ex st0 ->
+              forall a, get a (run_total ss st0) = get a st0 \/ get a (run_total ss st0) = get a (override st0 req)).
+    { intros st0 Hm He a. right. apply Q; assumption. }
+    rewrite Hadr, Hu. cbn [andb negb]. apply forallb_forall. intros a _. unfold check_attr.
+    pose proof (Q _ (canon_matches ex) (canon_enough req ex ss Htg) a) as Kc. rewrite get_run, get_override in Kc.
+    destruct (lastset a (all_assign ss)) as [v|] eqn:Hl; destruct (req_val req a) as [w|] eqn:Hr.
+    + rewrite Kc. apply aval_eqb_refl.
+    + apply (unrequested_complete req ex ss Htg P a v Hl Hr).
+    + destruct (stated_val ex a) as [u|] eqn:Hs.
+      * rewrite <- (canon_stated _ _ _ Hs), Kc. apply aval_eqb_refl.
+      * exfalso. set (x := other w).
+        assert (Hax : attr_of x = a).
+        { unfold x. rewrite other_attr, <- Kc. apply get_attr. }
+        assert (Hs' : stated_val ex (attr_of x) = None) by (rewrite Hax; exact Hs).
+        destruct (enough_gen req ex ss Htg x Hs') as [M E]; [left; rewrite Hax, Hr; discriminate|].
+        pose proof (Q _ M E a) as K. rewrite get_run, get_override, Hl, Hr, get_set in K.
+        rewrite Hax, attr_eqb_refl in K. apply (other_neq w). exact K.
+    + reflexivity.
+Qed.
+
+(* ================================================================== Part 2: the model
+
+   Part 2a: with plain server defaults on both sides (no Computed / Identity object) the model is the
+   following simpler program; Part 2b proves everything about that program. *)
+
+Definition default_alter_column_p (d:dialect) (col:N) (nullable:option bool) (server_default:tri N) (name:option N)
+           (type_:option ty) (comment:tri N) (existing_type:option ty) : out :=
+  (* autoincrement / existing_autoincrement: util.warn only *)
+  (match nullable with Some b => exec d col (ColumnNullable b existing_type) | None => ret end) >>
+  (match server_default with
+   | TFalse => ret
+   | TNone => exec d col (ColumnDefault None)
+   | TSome v => exec d col (ColumnDefault (Some v))
+   end) >>
+  (match type_ with Some t => exec d col (ColumnType t) | None => ret end) >>
+  (match comment with
+   | TFalse => ret
+   | TNone => exec d col (ColumnComment None)
+   | TSome c => exec d col (ColumnComment (Some c))
+   end) >>
+  (match name with Some n => exec d col (ColumnName n) | None => ret end).
+
+Definition mysql_alter_column_p (d:dialect) (req:request) (ex:existing) : out :=
+  let col := e_name ex in
+  let nullable := match r_null req with Some b => b
+                  | None => match e_null ex with Some b => b | None => true end end in
+  let type_ := or_else (r_type req) (e_type ex) in
+  let default := tri_or_else (r_default req) (e_default ex) in
+  let autoincrement := or_else (r_autoinc req) (e_autoinc ex) in
+  let comment := match r_comment req with TFalse => opt_to_tri (e_comment ex) | c => c end in
+  if isSome (r_name req) || _is_mysql_allowed_functional_default type_ (r_default req) then
+    match type_ with
+    | None => raise CommandError                           (* MySQLChangeColumn.__init__ *)
+    | Some t => exec d col (MySQLChangeColumn (match r_name req with Some n => n | None => e_name ex end)
+                                          (_mysql_colspec nullable default t autoincrement comment) false)
+    end
+  else if isSome (r_null req) || isSome (r_type req) || isSome (r_autoinc req) || given (r_comment req) then
+    match type_ with
+    | None => raise CommandError
+    | Some t => exec d col (MySQLModifyColumn (_mysql_colspec nullable default t autoincrement comment) false)
+    end
+  else match r_default req with
+       | TFalse => ret
+       | TNone => exec d col (MySQLAlterDefaultC None)
+       | TSome v => exec d col (MySQLAlterDefaultC (Some v))
+       end.
+
+Definition mssql_alter_column_p (d:dialect) (req:request) (ex:existing) : out :=
+  let col := e_name ex in
+  (* first block: fold the type into the NULL / NOT NULL alter *)
+  let '(pre, nullable, type_, existing_type) :=
+    match r_null req, r_type req, e_type ex, e_null ex with
+    | Some b, Some t, _, _ => (None, Some b, None, Some t)
+    | Some b, None, None, _ => (Some CommandError, Some b, None, None)
+    | Some b, None, Some et, _ => (None, Some b, None, Some et)
+    | None, Some t, _, Some eb => (None, Some eb, None, Some t)
+    | None, ty_, et, _ => (None, None, ty_, et)            (* incl. the util.warn branch *)
+    end in
+  match pre with
+  | Some e => raise e
+  | None =>
+    default_alter_column_p d col nullable TFalse None type_ (r_comment req) existing_type >>
+    (match r_default req with
+     | TFalse => ret
+     | sd =>
+       when (given (e_default ex) || match sd with TNone => true | _ => false end) (exec d col ExecDropConstraint) >>
+       (match sd with
+        | TSome v => default_alter_column_p d col None (TSome v) None None TFalse None
+        | _ => ret
+        end)
+     end) >>
+    (match r_name req with
+     | Some n => default_alter_column_p d col None TFalse (Some n) None TFalse None
+     | None => ret
+     end)
+  end.
+
+Definition postgresql_alter_column_p (d:dialect) (req:request) (ex:existing) : out :=
+  let col := e_name ex in
+  if isSome (r_using req) && negb (isSome (r_type req)) then raise CommandError
+  else
+    (match r_type req with Some t => exec d col (PostgresqlColumnType t (r_using req)) | None => ret end) >>
+    default_alter_column_p d col (r_null req) (r_default req) (r_name req) None (r_comment req) (e_type ex).
+
+Definition alter_column_p (d:dialect) (req:request) (ex:existing) : out :=
+  match d with
+  | Dmysql | Dmariadb => mysql_alter_column_p d req ex
+  | Dmssql => mssql_alter_column_p d req ex
+  | Dpostgresql => postgresql_alter_column_p d req ex
+  | Ddefault | Dsqlite | Doracle =>
+      default_alter_column_p d (e_name ex) (r_null req) (r_default req) (r_name req) (r_type req) (r_comment req) (e_type ex)
+  end.
+
+
+Definition inner_P (i:c13_in) : out := alter_column_p (i_d i) (i_req i) (i_ex i).
+
+Lemma plain_inv i : plain_defaults i = true -> r_dkind (i_req i) = KPlain /\ e_dkind (i_ex i) = KPlain.
+Proof.
+  unfold plain_defaults. rewrite andb_true_iff. intros [A B].
+  destruct (r_dkind (i_req i)); try discriminate A. destruct (e_dkind (i_ex i)); try discriminate B. auto.
+Qed.
+
+Lemma seq_ret_l x : ret >> x = x.
+Proof. destruct x as [ss e]. reflexivity. Qed.
+
+Lemma default_alter_column_plain d col nullable sd name type_ comment et esd :
+  default_alter_column d col nullable sd name type_ comment et KPlain esd KPlain
+  = default_alter_column_p d col nullable sd name type_ comment et.
+Proof. unfold default_alter_column, default_alter_column_p. destruct sd; reflexivity. Qed.
+
+Lemma inner_plain i : plain_defaults i = true -> inner_C13 i = inner_P i.
+Proof.
+  intros Hp. apply plain_inv in Hp. destruct Hp as [Hr He].
+  destruct i as [d sch req ex]. unfold inner_C13, inner_P, alter_column, alter_column_p. cbn [i_d i_req i_ex] in *.
+  destruct d.
+  - rewrite Hr, He. apply default_alter_column_plain.
+  - rewrite Hr, He. apply default_alter_column_plain.
+  - unfold postgresql_alter_column, postgresql_alter_column_p. rewrite Hr, He, default_alter_column_plain. reflexivity.
+  - unfold mysql_alter_column, mysql_alter_column_p. rewrite Hr, He.
+    destruct (r_default req) eqn:D; cbn -[default_alter_column];
+      match goal with |- (let (sb, e) := ?x in _) = _ => destruct x as [sb e] end; reflexivity.
+  - unfold mysql_alter_column, mysql_alter_column_p. rewrite Hr, He.
+    destruct (r_default req) eqn:D; cbn -[default_alter_column];
+      match goal with |- (let (sb, e) := ?x in _) = _ => destruct x as [sb e] end; reflexivity.
+  - unfold mssql_alter_column, mssql_alter_column_p. rewrite Hr, He.
+    destruct (r_null req), (r_type req), (e_type ex), (e_null ex); cbn -[default_alter_column default_alter_column_p];
+      rewrite ?default_alter_column_plain; destruct (r_default req); reflexivity.
+  - rewrite Hr, He. apply default_alter_column_plain.
+Qed.
+
+(* ---- Part 2b *)
 
 Section Matches.
 Variables (ex:existing) (st0:colstate).
@@ -216,7 +569,7 @@ Qed.
 Ltac destr_req req :=
   let rt := fresh "rt" in let rn := fresh "rn" in let rd := fresh "rd" in let rname := fresh "rname" in
   let rc := fresh "rc" in let ra := fresh "ra" in let ru := fresh "ru" in
-  destruct req as [rt rn rd rname rc ra ru];
+  destruct req as [rt rn rd rname rc ra ru rk];
   destruct rt as [rt|], rn as [rn|], rd as [| |rd], rname as [rname|], rc as [| |rc].
 
 (* ---------------------------------------------------------------- default / sqlite / oracle / postgresql *)
@@ -225,7 +578,7 @@ Definition plain (d:dialect) : bool :=
 
 Lemma effect_plain d sch req ex ss st0 :
   plain d = true -> autoinc_honoured (mkIn d sch req ex) = true -> matches ex st0 ->
-  inner_C13 (mkIn d sch req ex) = (ss, None) -> run_total ss st0 = override st0 req.
+  inner_P (mkIn d sch req ex) = (ss, None) -> run_total ss st0 = override st0 req.
 Proof.
   intros Hd Ha Hm H.
   assert (Hk := autoinc_keep (mkIn d sch req ex) st0 Ha). cbn [i_d i_req i_ex] in Hk.
@@ -251,14 +604,14 @@ Qed.
 
 Lemma effect_mssql sch req ex ss st0 :
   autoinc_honoured (mkIn Dmssql sch req ex) = true -> matches ex st0 -> stated_enough ss req ex st0 ->
-  inner_C13 (mkIn Dmssql sch req ex) = (ss, None) -> run_total ss st0 = override st0 req.
+  inner_P (mkIn Dmssql sch req ex) = (ss, None) -> run_total ss st0 = override st0 req.
 Proof.
   intros Ha Hm He H.
   assert (Hk := autoinc_keep (mkIn Dmssql sch req ex) st0 Ha eq_refl Hm). cbn [i_d i_req i_ex] in Hk.
   assert (Ht := matches_type ex st0 Hm). assert (Hn := matches_null ex st0 Hm).
   assert (Hnull := enough_null ss req ex st0 He). clear Ha Hm He.
   unfold override. rewrite Hk. clear Hk. destruct st0 as [n t nl df cm ai].
-  destruct ex as [en et enl ed ec ea]. cbn [e_type e_null c_type c_null r_null] in *.
+  destruct ex as [en et enl ed ec ea ek]. cbn [e_type e_null c_type c_null r_null] in *.
   destr_req req.
   all: destruct et as [et|], enl as [enl|], ed as [| |ed].
   all: vm_compute in H; try discriminate H; injection H as <-.
@@ -276,7 +629,7 @@ Definition mysql_spec (req:request) (ex:existing) (t:ty) : colspec :=
     (match r_comment req with TFalse => opt_to_tri (e_comment ex) | c => c end).
 
 Lemma mysql_out d req ex ss e :
-  is_mysql d = true -> mysql_alter_column d req ex = (ss, e) ->
+  is_mysql d = true -> mysql_alter_column_p d req ex = (ss, e) ->
   (exists t, or_else (r_type req) (e_type ex) = Some t /\ e = None /\
      (ss = [MySQLChange (e_name ex) (match r_name req with Some n => n | None => e_name ex end) (mysql_spec req ex t)] \/
       (r_name req = None /\ ss = [MySQLModify (e_name ex) (mysql_spec req ex t)])))
@@ -286,7 +639,7 @@ Lemma mysql_out d req ex ss e :
   \/ (or_else (r_type req) (e_type ex) = None /\ ss = [] /\ e = Some CommandError /\
       (isSome (r_name req) || isSome (r_null req) || isSome (r_autoinc req) || given (r_comment req)) = true).
 Proof.
-  intros Hd. unfold mysql_alter_column. fold (mysql_spec req ex).
+  intros Hd. unfold mysql_alter_column_p. fold (mysql_spec req ex).
   destruct (isSome (r_name req) || _is_mysql_allowed_functional_default (or_else (r_type req) (e_type ex)) (r_default req)) eqn:C1.
   - destruct (or_else (r_type req) (e_type ex)) as [t|] eqn:T.
     + unfold exec, compile. rewrite Hd. intros H. injection H as <- <-. left. exists t. auto.
@@ -376,10 +729,10 @@ End MySQLFields.
 
 Lemma effect_mysql d sch req ex ss st0 :
   is_mysql d = true -> matches ex st0 -> stated_enough ss req ex st0 ->
-  inner_C13 (mkIn d sch req ex) = (ss, None) -> run_total ss st0 = override st0 req.
+  inner_P (mkIn d sch req ex) = (ss, None) -> run_total ss st0 = override st0 req.
 Proof.
-  intros Hd Hm He H. unfold inner_C13, alter_column in H. cbn [i_d i_req i_ex] in H.
-  assert (H' : mysql_alter_column d req ex = (ss, None)) by (destruct d; try discriminate Hd; exact H).
+  intros Hd Hm He H. unfold inner_P, alter_column_p in H. cbn [i_d i_req i_ex] in H.
+  assert (H' : mysql_alter_column_p d req ex = (ss, None)) by (destruct d; try discriminate Hd; exact H).
   clear H. apply mysql_out in H'; [|exact Hd].
   destruct H' as [[t [T [_ [S|[N S]]]]]|[[N [Nn [Nt [Na [Nc [_ S]]]]]]|[_ [_ [E _]]]]]; [| | |discriminate E].
   - subst ss. unfold run_total, override. cbn [fold_left apply].
@@ -392,8 +745,8 @@ Proof.
 Qed.
 
 (* ---------------------------------------------------------------- main effect theorem *)
-Theorem effect_all_inner i ss st0 :
-  autoinc_honoured i = true -> inner_C13 i = (ss, None) -> matches (i_ex i) st0 ->
+Theorem effect_all_P i ss st0 :
+  autoinc_honoured i = true -> inner_P i = (ss, None) -> matches (i_ex i) st0 ->
   stated_enough ss (i_req i) (i_ex i) st0 -> run_total ss st0 = override st0 (i_req i).
 Proof.
   destruct i as [d sch req ex]. cbn [i_req i_ex]. intros Ha H Hm He.
@@ -408,18 +761,19 @@ Proof.
 Qed.
 
 (* ---------------------------------------------------------------- raises exactly when unsupported *)
+(* for ALL kinds of server default (plain, Computed, Identity on either side) *)
 Lemma raises_iff_unsupported_inner i : isSome (snd (inner_C13 i)) = unsupported i.
 Proof.
-  destruct i as [d sch req ex]. destruct ex as [en et enl ed ec ea].
-  destruct req as [rt rn rd rname rc ra ru].
+  destruct i as [d sch req ex]. destruct ex as [en et enl ed ec ea ek].
+  destruct req as [rt rn rd rname rc ra ru rk].
   destruct d.
-  - destruct rt, rn, rd, rname, rc; reflexivity.
-  - destruct rt, rn, rd, rname, rc; reflexivity.
-  - destruct rt, rn, rd, rname, rc, ru; reflexivity.
-  - destruct rt as [[? [|] ?]|], et as [[? [|] ?]|], rn, rd, rname, rc, ra; reflexivity.
-  - destruct rt as [[? [|] ?]|], et as [[? [|] ?]|], rn, rd, rname, rc, ra; reflexivity.
-  - destruct rt, et, enl, ed, rn, rd, rname, rc; reflexivity.
-  - destruct rt, rn, rd, rname, rc; reflexivity.
+  - destruct rk, ek, ed, rt, rn, rd, rname, rc; reflexivity.
+  - destruct rk, ek, ed, rt, rn, rd, rname, rc; reflexivity.
+  - destruct rk, ek, ed, rt, rn, rd, rname, rc, ru; reflexivity.
+  - destruct rk, ek, ed, rt as [[? [|] ?]|], et as [[? [|] ?]|], rn, rd, rname, rc, ra; reflexivity.
+  - destruct rk, ek, ed, rt as [[? [|] ?]|], et as [[? [|] ?]|], rn, rd, rname, rc, ra; reflexivity.
+  - destruct rk, ek, ed, rt, et, enl, rn, rd, rname, rc; reflexivity.
+  - destruct rk, ek, ed, rt, rn, rd, rname, rc; reflexivity.
 Qed.
 
 (* ---------------------------------------------------------------- no invention (C13_restated) *)
@@ -431,7 +785,7 @@ Ltac inv_in :=
          end.
 
 Lemma no_invention_plain d sch req ex ss e :
-  plain d = true -> inner_C13 (mkIn d sch req ex) = (ss, e) -> no_invention req ex ss.
+  plain d = true -> inner_P (mkIn d sch req ex) = (ss, e) -> no_invention req ex ss.
 Proof.
   intros Hd H s v w Hs Hv Hr Hst. clear Hst.
   destr_req req. all: destruct ru as [ru|].
@@ -441,10 +795,10 @@ Proof.
 Qed.
 
 Lemma no_invention_mssql sch req ex ss e :
-  inner_C13 (mkIn Dmssql sch req ex) = (ss, e) -> no_invention req ex ss.
+  inner_P (mkIn Dmssql sch req ex) = (ss, e) -> no_invention req ex ss.
 Proof.
   intros H s v w Hs Hv Hr Hst.
-  destruct ex as [en et enl ed ec ea].
+  destruct ex as [en et enl ed ec ea ek].
   destr_req req.
   all: destruct et as [et|], enl as [enl|], ed as [| |ed].
   all: vm_compute in H; injection H as <- <-.
@@ -468,10 +822,10 @@ Proof.
 Qed.
 
 Lemma no_invention_mysql d sch req ex ss e :
-  is_mysql d = true -> inner_C13 (mkIn d sch req ex) = (ss, e) -> no_invention req ex ss.
+  is_mysql d = true -> inner_P (mkIn d sch req ex) = (ss, e) -> no_invention req ex ss.
 Proof.
-  intros Hd H s v w Hs Hv Hr Hst. unfold inner_C13, alter_column in H. cbn [i_d i_req i_ex] in H.
-  assert (H' : mysql_alter_column d req ex = (ss, e)) by (destruct d; try discriminate Hd; exact H).
+  intros Hd H s v w Hs Hv Hr Hst. unfold inner_P, alter_column_p in H. cbn [i_d i_req i_ex] in H.
+  assert (H' : mysql_alter_column_p d req ex = (ss, e)) by (destruct d; try discriminate Hd; exact H).
   clear H. apply mysql_out in H'; [|exact Hd].
   destruct H' as [[t [T [_ [S|[N S]]]]]|[[N [Nn [Nt [Na [Nc [_ S]]]]]]|[_ [S _]]]]; subst ss.
   - inv_in. cbn [assign] in Hv. destruct Hv as [<-|Hv].
@@ -482,7 +836,7 @@ Proof.
   - inv_in.
 Qed.
 
-Theorem no_invention_all_inner i ss e : inner_C13 i = (ss, e) -> no_invention (i_req i) (i_ex i) ss.
+Theorem no_invention_all_P i ss e : inner_P i = (ss, e) -> no_invention (i_req i) (i_ex i) ss.
 Proof.
   destruct i as [d sch req ex]. cbn [i_req i_ex]. intros H. destruct d.
   - exact (no_invention_plain Ddefault sch req ex ss e eq_refl H).
@@ -498,7 +852,7 @@ Qed.
 Ltac old_or_new := first [left; reflexivity | right; reflexivity].
 
 Lemma prefix_plain d sch req ex ss e st0 :
-  plain d = true -> inner_C13 (mkIn d sch req ex) = (ss, Some e) ->
+  plain d = true -> inner_P (mkIn d sch req ex) = (ss, Some e) ->
   forall a, get a (run_total ss st0) = get a st0 \/ get a (run_total ss st0) = get a (override st0 req).
 Proof.
   intros Hd H a. destruct st0 as [n t nl df cm ai].
@@ -509,14 +863,14 @@ Proof.
 Qed.
 
 Lemma prefix_mssql sch req ex ss e st0 :
-  matches ex st0 -> stated_enough ss req ex st0 -> inner_C13 (mkIn Dmssql sch req ex) = (ss, Some e) ->
+  matches ex st0 -> stated_enough ss req ex st0 -> inner_P (mkIn Dmssql sch req ex) = (ss, Some e) ->
   forall a, get a (run_total ss st0) = get a st0 \/ get a (run_total ss st0) = get a (override st0 req).
 Proof.
   intros Hm He H a.
   assert (Ht := matches_type ex st0 Hm). assert (Hn := matches_null ex st0 Hm).
   assert (Hnull := enough_null ss req ex st0 He). clear Hm He.
   destruct st0 as [n t nl df cm ai].
-  destruct ex as [en et enl ed ec ea]. cbn [e_type e_null c_type c_null r_null] in *.
+  destruct ex as [en et enl ed ec ea ek]. cbn [e_type e_null c_type c_null r_null] in *.
   destr_req req.
   all: destruct et as [et|], enl as [enl|], ed as [| |ed].
   all: vm_compute in H; try discriminate H; injection H as <- <-.
@@ -526,24 +880,24 @@ Proof.
 Qed.
 
 Lemma prefix_mysql d sch req ex ss e st0 :
-  is_mysql d = true -> inner_C13 (mkIn d sch req ex) = (ss, Some e) ->
+  is_mysql d = true -> inner_P (mkIn d sch req ex) = (ss, Some e) ->
   forall a, get a (run_total ss st0) = get a st0 \/ get a (run_total ss st0) = get a (override st0 req).
 Proof.
-  intros Hd H a. unfold inner_C13, alter_column in H. cbn [i_d i_req i_ex] in H.
-  assert (H' : mysql_alter_column d req ex = (ss, Some e)) by (destruct d; try discriminate Hd; exact H).
+  intros Hd H a. unfold inner_P, alter_column_p in H. cbn [i_d i_req i_ex] in H.
+  assert (H' : mysql_alter_column_p d req ex = (ss, Some e)) by (destruct d; try discriminate Hd; exact H).
   clear H. apply mysql_out in H'; [|exact Hd].
   destruct H' as [[t [T [E _]]]|[[N [Nn [Nt [Na [Nc [E S]]]]]]|[_ [S _]]]]; try discriminate E.
   subst ss. left. reflexivity.
 Qed.
 
-Theorem raises_instead_all_inner i ss e :
-  inner_C13 i = (ss, Some e) ->
+Theorem raises_instead_all_P i ss e :
+  plain_defaults i = true -> inner_P i = (ss, Some e) ->
   unsupported i = true /\
   forall st0, matches (i_ex i) st0 -> stated_enough ss (i_req i) (i_ex i) st0 ->
     forall a, get a (run_total ss st0) = get a st0 \/ get a (run_total ss st0) = get a (override st0 (i_req i)).
 Proof.
-  intros H. split.
-  - rewrite <- raises_iff_unsupported_inner, H. reflexivity.
+  intros Hp H. split.
+  - rewrite <- raises_iff_unsupported_inner, (inner_plain i Hp), H. reflexivity.
   - destruct i as [d sch req ex]. cbn [i_req i_ex]. intros st0 Hm He. destruct d.
     + exact (prefix_plain Ddefault sch req ex ss e st0 eq_refl H).
     + exact (prefix_plain Dsqlite sch req ex ss e st0 eq_refl H).
@@ -556,19 +910,19 @@ Qed.
 
 
 (* ---------------------------------------------------------------- autoincrement is ignored outside MySQL *)
-Lemma autoinc_never_assigned_inner i :
-  is_mysql (i_d i) = false -> lastset AAutoinc (all_assign (fst (inner_C13 i))) = None.
+Lemma autoinc_never_assigned_P i :
+  is_mysql (i_d i) = false -> lastset AAutoinc (all_assign (fst (inner_P i))) = None.
 Proof.
   destruct i as [d sch req ex]. cbn [i_d]. intros Hd.
-  destruct ex as [en et enl ed ec ea].
+  destruct ex as [en et enl ed ec ea ek].
   destr_req req. all: destruct ru as [ru|].
   all: destruct d; try discriminate Hd; try reflexivity.
   all: destruct et as [et|], enl as [enl|], ed as [| |ed]; reflexivity.
 Qed.
 
 
-Definition req_autoinc_only : request := mkReq None None TFalse None TFalse (Some true) None.
-Definition ex_nothing : existing := mkEx 1 None None TFalse None None.
+Definition req_autoinc_only : request := mkReq None None TFalse None TFalse (Some true) None KPlain.
+Definition ex_nothing : existing := mkEx 1 None None TFalse None None KPlain.
 Definition st_plain : colstate := mkCol 1%N (mkTy 0 false None) true None None false.
 
 
@@ -583,7 +937,7 @@ Proof.
 Qed.
 
 Lemma restated_plain d sch req ex :
-  plain d = true -> restated_attrs (fst (inner_C13 (mkIn d sch req ex))) = [].
+  plain d = true -> restated_attrs (fst (inner_P (mkIn d sch req ex))) = [].
 Proof.
   intros Hd. destr_req req. all: destruct ru as [ru|].
   all: destruct d; try discriminate Hd; reflexivity.
@@ -591,20 +945,20 @@ Qed.
 
 Lemma restated_mysql d sch req ex :
   is_mysql d = true ->
-  restated_attrs (fst (inner_C13 (mkIn d sch req ex))) =
+  restated_attrs (fst (inner_P (mkIn d sch req ex))) =
   if mysql_restates req ex then [AType; ANull; ADefault; AComment; AAutoinc] else [].
 Proof.
-  intros Hd. destruct ex as [en et enl ed ec ea]. destruct req as [rt rn rd rname rc ra ru].
+  intros Hd. destruct ex as [en et enl ed ec ea ek]. destruct req as [rt rn rd rname rc ra ru rk].
   destruct d; try discriminate Hd.
   all: destruct rt as [[? [|] ?]|], et as [[? [|] ?]|], rn, rd, rname, rc, ra; reflexivity.
 Qed.
 
 Lemma exact_mssql sch req ex st0 :
-  stated_enough (fst (inner_C13 (mkIn Dmssql sch req ex))) req ex st0 <->
+  stated_enough (fst (inner_P (mkIn Dmssql sch req ex))) req ex st0 <->
   (isSome (r_type req) = true -> r_null req = None -> known ex st0 ANull).
 Proof.
   rewrite stated_enough_attrs.
-  destruct ex as [en et enl ed ec ea].
+  destruct ex as [en et enl ed ec ea ek].
   destr_req req.
   all: destruct et as [et|], enl as [enl|], ed as [| |ed].
   all: vm_compute fst; cbn [restated_attrs flat_map restates app isSome r_type r_null].
@@ -619,8 +973,8 @@ Proof.
   all: apply H; reflexivity.
 Qed.
 
-Theorem stated_enough_exact_inner i st0 :
-  stated_enough (fst (inner_C13 i)) (i_req i) (i_ex i) st0 <-> existing_needed i st0.
+Theorem stated_enough_exact_P i st0 :
+  stated_enough (fst (inner_P i)) (i_req i) (i_ex i) st0 <-> existing_needed i st0.
 Proof.
   destruct i as [d sch req ex]. unfold existing_needed. cbn [i_d i_req i_ex].
   destruct d.
@@ -635,9 +989,9 @@ Qed.
    column by its current name in every statement, and the rename comes last (or inside the one restating
    statement) *)
 Definition addr_fact (i:c13_in) : Prop :=
-  addr_ok (e_name (i_ex i)) (fst (inner_C13 i)) = true /\
-  (snd (inner_C13 i) = None ->
-   fold_left name_after (fst (inner_C13 i)) (e_name (i_ex i))
+  addr_ok (e_name (i_ex i)) (fst (inner_P i)) = true /\
+  (snd (inner_P i) = None ->
+   fold_left name_after (fst (inner_P i)) (e_name (i_ex i))
    = match r_name (i_req i) with Some n => n | None => e_name (i_ex i) end).
 
 Ltac addr_tac :=
@@ -646,7 +1000,7 @@ Ltac addr_tac :=
 
 Lemma addr_plain d sch req ex : plain d = true -> addr_fact (mkIn d sch req ex).
 Proof.
-  intros Hd. destruct ex as [en et enl ed ec ea].
+  intros Hd. destruct ex as [en et enl ed ec ea ek].
   destr_req req. all: destruct ru as [ru|].
   all: destruct d; try discriminate Hd.
   all: addr_tac.
@@ -654,7 +1008,7 @@ Qed.
 
 Lemma addr_mssql sch req ex : addr_fact (mkIn Dmssql sch req ex).
 Proof.
-  destruct ex as [en et enl ed ec ea].
+  destruct ex as [en et enl ed ec ea ek].
   destr_req req.
   all: destruct et as [et|], enl as [enl|], ed as [| |ed].
   all: addr_tac.
@@ -663,10 +1017,10 @@ Qed.
 Lemma addr_mysql d sch req ex : is_mysql d = true -> addr_fact (mkIn d sch req ex).
 Proof.
   intros Hd.
-  assert (Hi : inner_C13 (mkIn d sch req ex) = mysql_alter_column d req ex)
+  assert (Hi : inner_P (mkIn d sch req ex) = mysql_alter_column_p d req ex)
     by (destruct d; try discriminate Hd; reflexivity).
   unfold addr_fact. rewrite Hi. cbn [i_req i_ex].
-  destruct (mysql_alter_column d req ex) as [ss e] eqn:H'. cbn [fst snd].
+  destruct (mysql_alter_column_p d req ex) as [ss e] eqn:H'. cbn [fst snd].
   apply mysql_out in H'; [|exact Hd].
   destruct H' as [[t [T [-> [S|[N S]]]]]|[[N [Nn [Nt [Na [Nc [-> S]]]]]]|[_ [S [-> _]]]]]; subst ss.
   - cbn -[N.eqb]. rewrite N.eqb_refl. split; [reflexivity|intros _; reflexivity].
@@ -675,7 +1029,7 @@ Proof.
   - split; [reflexivity|intros E; discriminate E].
 Qed.
 
-Lemma addr_inner i : addr_fact i.
+Lemma addr_P i : addr_fact i.
 Proof.
   destruct i as [d sch req ex]. destruct d.
   - exact (addr_plain Ddefault sch req ex eq_refl).
@@ -686,6 +1040,67 @@ Proof.
   - exact (addr_mssql sch req ex).
   - exact (addr_plain Doracle sch req ex eq_refl).
 Qed.
+
+(* ---- a restating statement was given its type *)
+Lemma type_given_mssql sch req ex :
+  In AType (restated_attrs (fst (inner_P (mkIn Dmssql sch req ex)))) ->
+  req_val req AType <> None \/ stated_val ex AType <> None.
+Proof.
+  destruct ex as [en et enl ed ec ea].
+  destr_req req.
+  all: destruct et as [et|], enl as [enl|], ed as [| |ed].
+  all: vm_compute fst; cbn [restated_attrs flat_map restates app In req_val stated_val r_type e_type option_map].
+  all: intros H; first [left; discriminate | right; discriminate | idtac].
+  all: repeat (destruct H as [H|H]; try discriminate H); destruct H.
+Qed.
+
+(* ---- Part 2c: back to the model itself, for plain server defaults *)
+Section Bridge.
+Variable i : c13_in.
+Hypothesis Hp : plain_defaults i = true.
+
+Theorem effect_all_inner ss st0 :
+  autoinc_honoured i = true -> inner_C13 i = (ss, None) -> matches (i_ex i) st0 ->
+  stated_enough ss (i_req i) (i_ex i) st0 -> run_total ss st0 = override st0 (i_req i).
+Proof. rewrite (inner_plain i Hp). apply effect_all_P. Qed.
+
+Theorem no_invention_all_inner ss e : inner_C13 i = (ss, e) -> no_invention (i_req i) (i_ex i) ss.
+Proof. rewrite (inner_plain i Hp). apply no_invention_all_P. Qed.
+
+Theorem raises_instead_all_inner ss e :
+  inner_C13 i = (ss, Some e) ->
+  unsupported i = true /\
+  forall st0, matches (i_ex i) st0 -> stated_enough ss (i_req i) (i_ex i) st0 ->
+    forall a, get a (run_total ss st0) = get a st0 \/ get a (run_total ss st0) = get a (override st0 (i_req i)).
+Proof. rewrite (inner_plain i Hp). apply raises_instead_all_P. exact Hp. Qed.
+
+Lemma autoinc_never_assigned_inner :
+  is_mysql (i_d i) = false -> lastset AAutoinc (all_assign (fst (inner_C13 i))) = None.
+Proof. rewrite (inner_plain i Hp). apply autoinc_never_assigned_P. Qed.
+
+Theorem stated_enough_exact_inner st0 :
+  stated_enough (fst (inner_C13 i)) (i_req i) (i_ex i) st0 <-> existing_needed i st0.
+Proof. rewrite (inner_plain i Hp). apply stated_enough_exact_P. Qed.
+
+Lemma addr_inner :
+  addr_ok (e_name (i_ex i)) (fst (inner_C13 i)) = true /\
+  (snd (inner_C13 i) = None ->
+   fold_left name_after (fst (inner_C13 i)) (e_name (i_ex i))
+   = match r_name (i_req i) with Some n => n | None => e_name (i_ex i) end).
+Proof. rewrite (inner_plain i Hp). apply addr_P. Qed.
+
+Lemma restated_inner_type :
+  In AType (restated_attrs (fst (inner_C13 i))) ->
+  req_val (i_req i) AType <> None \/ stated_val (i_ex i) AType <> None.
+Proof.
+  rewrite (inner_plain i Hp). destruct i as [d sch req ex]. cbn [i_req i_ex]. intros Hin. destruct d.
+  1,2,3,7: (rewrite restated_plain in Hin by reflexivity; destruct Hin).
+  1,2: (rewrite restated_mysql in Hin by reflexivity; unfold mysql_restates in Hin;
+        destruct (r_type req) as [t|] eqn:R; [left; cbn; rewrite R; discriminate|];
+        destruct (e_type ex) as [t|] eqn:E; [right; cbn; rewrite E; discriminate|]; cbn in Hin; destruct Hin).
+  apply type_given_mssql with (sch := sch). exact Hin.
+Qed.
+End Bridge.
 
 (* ================================================================== Part 3: the toimpl layer
    toimpl.alter_column only wraps the impl-level call in DROP/ADD CONSTRAINT statements for type-bound
@@ -756,10 +1171,10 @@ Theorem raises_iff_unsupported i : isSome (snd (model_C13 i)) = unsupported i.
 Proof. destruct (model_facts i) as [-> _]. apply raises_iff_unsupported_inner. Qed.
 
 Theorem effect_total i ss st0 :
-  autoinc_honoured i = true -> model_C13 i = (ss, None) -> matches (i_ex i) st0 ->
+  plain_defaults i = true -> autoinc_honoured i = true -> model_C13 i = (ss, None) -> matches (i_ex i) st0 ->
   stated_enough ss (i_req i) (i_ex i) st0 -> run_total ss st0 = override st0 (i_req i).
 Proof.
-  intros Ha H Hm He.
+  intros Hp Ha H Hm He.
   assert (Hf : fst (model_C13 i) = ss) by (rewrite H; reflexivity).
   assert (Hs : snd (inner_C13 i) = None) by (destruct (model_facts i) as [<- _]; rewrite H; reflexivity).
   rewrite <- Hf in He |- *. rewrite run_model. apply stated_enough_model in He.
@@ -806,10 +1221,10 @@ Proof.
   destruct (alter_column (i_d i) (i_req i) (i_ex i)) as [ss [e|]]; cbn; rewrite ?app_nil_r, <- ?app_assoc; reflexivity.
 Qed.
 
-Lemma addr_model i : addr_ok (e_name (i_ex i)) (fst (model_C13 i)) = true.
+Lemma addr_model i : plain_defaults i = true -> addr_ok (e_name (i_ex i)) (fst (model_C13 i)) = true.
 Proof.
-  rewrite model_shape_x in *. cbn [fst snd] in *.
-  destruct (addr_inner i) as [Hok Hfin].
+  intros Hp. rewrite model_shape_x in *. cbn [fst snd] in *.
+  destruct (addr_inner i Hp) as [Hok Hfin].
   assert (Hpre : addr_ok (e_name (i_ex i)) (pre_stmts i) = true /\
                  fold_left name_after (pre_stmts i) (e_name (i_ex i)) = e_name (i_ex i)).
   { unfold pre_stmts. destruct (e_type (i_ex i)), (r_type (i_req i)); try (split; reflexivity).
@@ -826,39 +1241,49 @@ Theorem effect_all i ss st0 :
   inclass_C13 i = true -> model_C13 i = (ss, None) -> matches (i_ex i) st0 ->
   stated_enough ss (i_req i) (i_ex i) st0 -> run ss st0 = Some (override st0 (i_req i)).
 Proof.
-  unfold inclass_C13. intros Ha H Hm He.
+  unfold inclass_C13. rewrite andb_true_iff. intros [Ha Hp] H Hm He.
   rewrite run_spec, (matches_name0 _ _ Hm).
   assert (Hf : fst (model_C13 i) = ss) by (rewrite H; reflexivity).
-  rewrite <- Hf at 1. rewrite (addr_model i). f_equal. eapply effect_total; eauto.
+  rewrite <- Hf at 1. rewrite (addr_model i Hp). f_equal. eapply effect_total; eauto.
 Qed.
 
-Theorem no_invention_all i ss e : model_C13 i = (ss, e) -> no_invention (i_req i) (i_ex i) ss.
+Theorem no_invention_all i ss e :
+  plain_defaults i = true -> model_C13 i = (ss, e) -> no_invention (i_req i) (i_ex i) ss.
 Proof.
-  intros H s v w Hs Hv Hr Hst.
+  intros Hp H s v w Hs Hv Hr Hst.
   assert (Hf : fst (model_C13 i) = ss) by (rewrite H; reflexivity). rewrite <- Hf in Hs.
   destruct (model_facts i) as [_ [_ [_ Hin]]]. destruct (Hin s Hs) as [Hn|Hn].
   - destruct s; try discriminate Hn; destruct Hv.
   - destruct (inner_C13 i) as [ss' e'] eqn:Hi. cbn [fst] in Hn.
-    eapply (no_invention_all_inner i ss' e' Hi); eauto.
+    eapply (no_invention_all_inner i Hp ss' e' Hi); eauto.
 Qed.
 
 Theorem raises_instead_all i ss e :
-  model_C13 i = (ss, Some e) ->
+  plain_defaults i = true -> model_C13 i = (ss, Some e) ->
   unsupported i = true /\
   forall st0, matches (i_ex i) st0 -> stated_enough ss (i_req i) (i_ex i) st0 ->
     exists st', run ss st0 = Some st' /\
     forall a, get a st' = get a st0 \/ get a st' = get a (override st0 (i_req i)).
 Proof.
-  intros H.
+  intros Hp H.
   assert (Hf : fst (model_C13 i) = ss) by (rewrite H; reflexivity).
   assert (Hsm : snd (model_C13 i) <> None) by (rewrite H; discriminate).
   assert (Hs : snd (inner_C13 i) = Some e) by (destruct (model_facts i) as [<- _]; rewrite H; reflexivity).
   destruct (inner_C13 i) as [ss' e'] eqn:Hi. cbn [snd] in Hs. subst e'.
-  destruct (raises_instead_all_inner i ss' e Hi) as [Hu Hp]. split; [exact Hu|].
+  destruct (raises_instead_all_inner i Hp ss' e Hi) as [Hu Hq]. split; [exact Hu|].
   intros st0 Hm He. exists (run_total ss st0). split.
-  - rewrite run_spec, (matches_name0 _ _ Hm). rewrite <- Hf at 1. rewrite (addr_model i). reflexivity.
+  - rewrite run_spec, (matches_name0 _ _ Hm). rewrite <- Hf at 1. rewrite (addr_model i Hp). reflexivity.
   - intros a. rewrite <- Hf in He |- *. rewrite run_model, Hi. cbn [fst].
-    apply Hp; auto. apply stated_enough_model in He. rewrite Hi in He. exact He.
+    apply Hq; auto. apply stated_enough_model in He. rewrite Hi in He. exact He.
+Qed.
+
+Theorem type_given_all i ss e :
+  plain_defaults i = true -> model_C13 i = (ss, e) -> type_given (i_req i) (i_ex i) ss.
+Proof.
+  intros Hp H s Hs Ha.
+  assert (Hf : fst (model_C13 i) = ss) by (rewrite H; reflexivity).
+  apply (restated_inner_type i Hp).
+  destruct (model_facts i) as [_ [_ [<- _]]]. rewrite Hf. unfold restated_attrs. apply in_flat_map. eauto.
 Qed.
 
 Lemma map_snd_tag (t:target) ss : map snd (map (fun s : stmt => (t, s)) ss) = ss.
@@ -866,12 +1291,14 @@ Proof. induction ss as [|s r IH]; [reflexivity|]. cbn. rewrite IH. reflexivity. 
 
 Theorem model_holds_partial i : inclass_C13 i = true -> C13_holds i (tagged_C13 i).
 Proof.
-  intros Ha. unfold tagged_C13. destruct (model_C13 i) as [ss e] eqn:H. cbn [fst snd]. unfold C13_holds.
+  intros Ha. assert (Hp : plain_defaults i = true) by (unfold inclass_C13 in Ha; apply andb_true_iff in Ha; tauto).
+  unfold tagged_C13. destruct (model_C13 i) as [ss e] eqn:H. cbn [fst snd]. unfold C13_holds.
   rewrite map_snd_tag. split.
   { intros ts Hin. apply in_map_iff in Hin. destruct Hin as [s [<- _]]. reflexivity. }
   split; [eapply no_invention_all; eauto|].
+  split; [eapply type_given_all; eauto|].
   destruct e as [e|].
-  - apply raises_instead_all in H. exact H.
+  - apply raises_instead_all in H; [exact H|exact Hp].
   - split.
     + rewrite <- raises_iff_unsupported, H. reflexivity.
     + intros st0 Hm He. eapply effect_all; eauto.
@@ -882,11 +1309,12 @@ Theorem toimpl_frame i st0 : run_total (fst (model_C13 i)) st0 = run_total (fst 
 Proof. apply run_model. Qed.
 
 Theorem autoinc_ignored i st0 st' :
+  plain_defaults i = true ->
   is_mysql (i_d i) = false -> run (fst (model_C13 i)) st0 = Some st' -> c_autoinc st' = c_autoinc st0.
 Proof.
-  intros Hd Hr. rewrite run_spec in Hr. destruct (addr_ok (c_name st0) (fst (model_C13 i))); [|discriminate Hr].
+  intros Hp Hd Hr. rewrite run_spec in Hr. destruct (addr_ok (c_name st0) (fst (model_C13 i))); [|discriminate Hr].
   injection Hr as <-. rewrite run_model. pose proof (get_run AAutoinc (fst (inner_C13 i)) st0) as H.
-  rewrite (autoinc_never_assigned_inner i Hd) in H. cbn in H. congruence.
+  rewrite (autoinc_never_assigned_inner i Hp Hd) in H. cbn in H. congruence.
 Qed.
 
 Lemma matches_plain : matches ex_nothing st_plain.
@@ -902,22 +1330,23 @@ Proof.
   assert (M : tagged_C13 (mkIn d sch req_autoinc_only ex_nothing) = ([], None))
     by (destruct d; try discriminate Hd; reflexivity).
   split; [destruct d; try discriminate Hd; reflexivity|]. split; [exact M|].
-  rewrite M. unfold C13_holds. intros [_ [_ [_ H]]].
+  rewrite M. unfold C13_holds. intros [_ [_ [_ [_ H]]]].
   specialize (H st_plain matches_plain).
   assert (He : stated_enough [] req_autoinc_only ex_nothing st_plain) by (intros s a []).
   specialize (H He). discriminate H.
 Qed.
 
 Theorem stated_enough_exact i st0 :
+  plain_defaults i = true ->
   stated_enough (fst (model_C13 i)) (i_req i) (i_ex i) st0 <-> existing_needed i st0.
-Proof. rewrite stated_enough_model. apply stated_enough_exact_inner. Qed.
+Proof. intros Hp. rewrite stated_enough_model. apply stated_enough_exact_inner. exact Hp. Qed.
 
 Local Open Scope N_scope.
 
 (* ---------------------------------------------------------------- minimality witnesses *)
 Definition T0 := mkTy 10 false None.
 Definition T1 := mkTy 11 false None.
-Definition req_type_only : request := mkReq (Some T1) None TFalse None TFalse None None.
+Definition req_type_only : request := mkReq (Some T1) None TFalse None TFalse None None KPlain.
 
 Ltac matches_tac := intros a v; destruct a; cbn; intros E; try discriminate E; injection E as <-; reflexivity.
 Ltac unknown_tac :=
@@ -950,8 +1379,8 @@ Qed.
 
 (* ---------------------------------------------------------------- non-vacuity *)
 Definition nv_in : c13_in :=
-  mkIn Dmysql tS (mkReq None (Some false) TFalse (Some 2) TFalse None None)
-       (mkEx 1 (Some T0) (Some true) (TSome 7) (Some 30) (Some true)).
+  mkIn Dmysql tS (mkReq None (Some false) TFalse (Some 2) TFalse None None KPlain)
+       (mkEx 1 (Some T0) (Some true) (TSome 7) (Some 30) (Some true) KPlain).
 Definition nv_st : colstate := mkCol 1 T0 true (Some 7) (Some 30) true.
 
 Lemma effect_nonvacuous :
@@ -964,14 +1393,14 @@ Proof.
 Qed.
 
 Definition nv_raise : c13_in :=
-  mkIn Dmssql tN (mkReq (Some T1) (Some false) TFalse None (TSome 31) None None) ex_nothing.
+  mkIn Dmssql tN (mkReq (Some T1) (Some false) TFalse None (TSome 31) None None KPlain) ex_nothing.
 Lemma raises_nonvacuous : model_C13 nv_raise = ([MSSQLAlterNull 1 T1 false], Some CompileError).
 Proof. reflexivity. Qed.
 
 (* the decider accepts the model's output, and rejects: a wrong restated value, the comment statement placed
    after the rename (it names a column that no longer exists), a statement on another schema *)
 Definition nv_order : c13_in :=
-  mkIn Dpostgresql tS (mkReq None None TFalse (Some 2) (TSome 31) None None) ex_nothing.
+  mkIn Dpostgresql tS (mkReq None None TFalse (Some 2) (TSome 31) None None KPlain) ex_nothing.
 Lemma decider_nonvacuous :
   check_C13 nv_in (tagged_C13 nv_in) = true /\ check_C13 nv_raise (tagged_C13 nv_raise) = true /\
   check_C13 nv_in ([(tS, MySQLChange 1 2 (mkSpec T0 false true None (Some 30)))], None) = false /\
@@ -979,3 +1408,37 @@ Lemma decider_nonvacuous :
   check_C13 nv_order ([(tS, Rename 1 2); (tS, SetComment 1 (Some 31))], None) = false /\
   check_C13 nv_order ([(tS, SetComment 1 (Some 31)); (tN, Rename 1 2)], None) = false.
 Proof. vm_compute. auto 10. Qed.
+
+(* ---------------------------------------------------------------- Identity / Computed defaults: examples and a refutation *)
+Definition ex_identity : existing := mkEx 1 None None (TSome 70) None None KIdentity.
+Definition req_identity : request := mkReq None None (TSome 71) None TFalse None None KIdentity.
+Definition req_plain_default : request := mkReq None None (TSome 9) None TFalse None None KPlain.
+Definition st_identity : colstate := mkCol 1 (mkTy 0 false None) true (Some 70) None false.
+
+Lemma identity_examples :
+  model_C13 (mkIn Dpostgresql tN req_identity ex_identity) = ([AlterIdentity 1 71 false], None) /\
+  model_C13 (mkIn Dpostgresql tN req_identity ex_nothing) = ([AlterIdentity 1 71 true], None) /\
+  model_C13 (mkIn Doracle tN req_identity ex_identity) = ([AddIdentity 1 71], None) /\
+  model_C13 (mkIn Dmssql tN req_identity ex_identity) = ([], Some CompileError) /\
+  model_C13 (mkIn Dmysql tN (mkReq None None TFalse (Some 2) TFalse None None KPlain)
+                   (mkEx 1 (Some T0) None (TSome 80) None None KComputed)) = ([], Some OtherErr) /\
+  check_C13 (mkIn Dpostgresql tN req_identity ex_identity) (tagged_C13 (mkIn Dpostgresql tN req_identity ex_identity)) = true.
+Proof. repeat split; reflexivity. Qed.
+
+(* FINDING: on PostgreSQL a plain server_default requested for a column whose stated existing default is an
+   Identity goes through the identity SET loop, which finds nothing to set: an empty ALTER COLUMN is emitted,
+   the requested default is not applied and nothing is raised *)
+Theorem pg_plain_default_on_identity_refuted :
+  inclass_C13 (mkIn Dpostgresql tN req_plain_default ex_identity) = false /\
+  tagged_C13 (mkIn Dpostgresql tN req_plain_default ex_identity) = ([(tN, AlterIdentityEmpty 1)], None) /\
+  ~ C13_holds (mkIn Dpostgresql tN req_plain_default ex_identity) (tagged_C13 (mkIn Dpostgresql tN req_plain_default ex_identity)).
+Proof.
+  split; [reflexivity|]. split; [reflexivity|].
+  assert (M : tagged_C13 (mkIn Dpostgresql tN req_plain_default ex_identity) = ([(tN, AlterIdentityEmpty 1)], None)) by reflexivity.
+  rewrite M. unfold C13_holds. intros [_ [_ [_ [_ H]]]].
+  assert (Hm : matches ex_identity st_identity).
+  { intros a v. destruct a; cbn; intros E; try discriminate E; injection E as <-; reflexivity. }
+  assert (He : stated_enough (map snd [(tN, AlterIdentityEmpty 1)]) req_plain_default ex_identity st_identity)
+    by (intros s a [<-|[]] []).
+  specialize (H st_identity Hm He). vm_compute in H. discriminate H.
+Qed.
